@@ -251,7 +251,7 @@ PROPS = {
                      "special field values as encodings; arkx configuration in both tiers. Optimisation goal Constraints / Weight / None as a configuration; equality family on two constants.",
         "text": "Consistency monitor between circuit and native code; value() is read only on satisfied systems.",
         "note": "the native functions are themselves monitored by C01-C09; hints are honest here (adversarial hints: C14).",
-        "timeout": {"quick": 1500, "thorough": 14400},
+        "timeout": {"quick": 2400, "thorough": 14400},
     },
     "C14": {
         "config_runs_quick": [], "config_runs": [('arkx', 'C14')],
@@ -277,7 +277,7 @@ PROPS = {
         "note": "(a) is complete over satisfying isqrt hints for the explored inputs; (c) explores single-hint discrete alternatives (and "
                 "whole bit-run shifts) of every other prover-chosen witness incl. those inside ark-r1cs-std; simultaneous changes of several "
                 "independent hints are only explored for isqrt pairs (thorough).",
-        "timeout": {"quick": 1500, "thorough": 14400},
+        "timeout": {"quick": 2400, "thorough": 14400},
     },
     "C15": {
         "config_runs_quick": [('arkx', 'C15')], "config_runs": [('arkx', 'C15')],
@@ -294,7 +294,7 @@ PROPS = {
                      "system; CountConstraints on the seven circuits; identity representatives through both public-input paths.",
         "text": "Shape/transcript monitor; digests are only compared within a run, the pinned keys are the only stored reference.",
         "note": "proofs are randomised, only accept/reject bits are compared; trusted: ark-groth16.",
-        "timeout": {"quick": 1500, "thorough": 14400},
+        "timeout": {"quick": 2400, "thorough": 14400},
     },
     "C16": {
         "config_runs_quick": [], "config_runs": [('arkx', 'C16')],
